@@ -17,7 +17,7 @@ import (
 )
 
 type c05Case struct {
-	Pieces []string `json:"pieces"` // one per reader
+	Pieces []string `json:"pieces"`          // one per reader
 	Input  string   `json:"input,omitempty"` // single-reader shorthand (native fuzz crashers)
 	Seed   string   `json:"seed"`
 	Kind   string   `json:"kind,omitempty"`
